@@ -296,7 +296,7 @@ func (f *c25Fault) install(kv *fakeNode) func() int {
 
 func TestC25(t *testing.T) {
 	rec := ev.New(t, "C25")
-	rec.Rule("every method of TunnelService and KeylessService (enumerated by reflection) x caller class {no delegation (direct handler + hook call), no certificate, certificate whose token was never registered (fresh / extension / prefix of a registered token / v2 form / near-collisions of five registered tokens [plain, legacy base64 with slashes, non-ASCII, pre-PKI, v2] under 34 transformations: path-unclean forms, case, whitespace, truncation/extension, padding, percent-encoding, unicode decomposition and look-alikes, alphabet swaps), certificate without a usable identity, registered (v1, v2, pre-PKI record)} x storage fault {none; Get / all reads / all operations failing, for the token key only or any key, first call or every call, with a plain, retryable-chord, node-gone or deadline error} x request body from a generic protoreflect filler (biased to registered hostnames and known node addresses), through the real path DynamicTunnelClient -> transport -> StreamRouter -> http.Server/chi (recoverer, limiter, 1 KiB body limit) -> twirp hook -> handler. First a deterministic sweep of all method x class pairs with an empty body, then two-step histories (a fresh certificate holder's RegisterIdentity fails because every DHT operation on token records fails - four error kinds - and leaves no record; the same caller then calls every gated method on healthy storage and must be refused like any never-registered caller), then rapid-generated cases (one in twelve of them such a two-step history with a generated body). Non-trivial: a method outside the {Ping, RegisterIdentity} allow-list whose body is non-empty (or whose request type has no fields at all). Distinct = (method, class, caller variant, body bytes).")
+	rec.Rule("every method of TunnelService and KeylessService (enumerated by reflection) x caller class {no delegation (direct handler + hook call), no certificate, certificate whose token was never registered (fresh / extension / prefix of a registered token / v2 form / near-collisions of five registered tokens [plain, legacy base64 with slashes, non-ASCII, pre-PKI, v2] under 34 transformations: path-unclean forms, case, whitespace, truncation/extension, padding, percent-encoding, unicode decomposition and look-alikes, alphabet swaps), certificate without a usable identity, registered (v1, v2, pre-PKI record)} x storage fault {none; Get / all reads / all operations failing, for the token key only or any key, first call or every call, with a plain, retryable-chord, node-gone or deadline error} x request body from a generic protoreflect filler (biased to registered hostnames and known node addresses), through the real path DynamicTunnelClient -> transport -> StreamRouter -> http.Server/chi (recoverer, limiter, 1 KiB body limit) -> twirp hook -> handler. First a deterministic sweep of all method x class pairs with an empty body, then two-step histories (a fresh certificate holder's RegisterIdentity fails because every DHT operation on token records fails - four error kinds - and leaves no record; the same caller then calls every gated method on healthy storage and must be refused like any never-registered caller), then rapid-generated cases (one in twelve of them such a two-step history with a generated body). Overlap dimension (class overlapping-verifications): the identity hook is called for a registered client and the DHT's answer to its token lookup is held back; meanwhile a certificate with a never-registered token (same client id and another token / an extension / a prefix / a v2 form, or another id) calls a gated method and must be refused, with no record written for it. Non-trivial: a method outside the {Ping, RegisterIdentity} allow-list whose body is non-empty (or whose request type has no fields at all). Distinct = (method, class, caller variant, body bytes).")
 	rec.Assume("a refusal by the authentication gate is observable as a twirp `unauthenticated` error on the wire (as the hook and extractAuthenticated produce), and as any error for a handler/hook invoked without a delegation",
 		"under an injected storage fault any refusal code is accepted for callers that must be refused; a registered caller may then be refused too, and a call the gate refuses (unauthenticated) must still change nothing",
 		"the transport has verified the certificate chain; the server sees only the parsed certificate",
@@ -304,6 +304,8 @@ func TestC25(t *testing.T) {
 
 	selfT := &protocol.Node{Id: 11, Address: "tun-self:443"}
 	selfC := &protocol.Node{Id: 12, Address: "chord-self:443"}
+	c25OverlappingVerifications(t, rec)
+
 	fx := newFixture(selfT, selfC)
 	defer fx.close()
 	putDestination(fx.kv, selfC, selfT)
